@@ -415,6 +415,15 @@ theorem processLinkFile_cap (dirSel base sel : Str) (fs : List Field) (hfs : ∀
   simp only [blockEntry]
   cases finishEntry base (applyAll base (freshLink dirSel (some sel)) fs) <;> simp
 
+/-- once a path is known (a `.cap` file starts that way) no line takes it away -/
+theorem applyAll_keeps_path (base : Str) (fs : List Field) (st : LinkState) (h : st.donePath = true) :
+    (applyAll base st fs).donePath = true := by
+  induction fs generalizing st with
+  | nil => simpa [applyAll] using h
+  | cons f fs ih =>
+    have : (f.apply base st).donePath = true := by cases f <;> simp [Field.apply, h]
+    simpa [applyAll] using ih _ this
+
 /-! ## what the order of lines inside a block means -/
 
 /-- the key a line sets (`Host=+` and `Port=+`, `Admin=`, `URL=`, `TTL=` set nothing) -/
